@@ -68,27 +68,27 @@ def sh(cmd, **kw):
 
 
 def run(m):
-    path = os.path.join(REPO, m["file"])
-    src = open(path).read()
     res = dict(id=m["id"], prop=m["prop"], note=m["note"])
-    if sh("git -C %s status --porcelain" % REPO).stdout.strip():
-        res["outcome"] = "SKIPPED: /repo is dirty"
-        return res
-    if src.count(m["old"]) != 1:
-        res["outcome"] = "STALE: pattern occurs %d times" % src.count(m["old"])
-        return res
+    wt = "/tmp/verif-mut-%d" % os.getpid()
+    sh("git -C %s worktree remove --force %s" % (REPO, wt))
+    rc = sh("git -C %s worktree add -q --detach %s HEAD" % (REPO, wt))
     try:
+        path = os.path.join(wt, m["file"])
+        src = open(path).read()
+        if src.count(m["old"]) != 1:
+            res["outcome"] = "STALE: pattern occurs %d times" % src.count(m["old"])
+            return res
         open(path, "w").write(src.replace(m["old"], m["new"]))
-        b = sh("cd %s && go build ./... && go vet -vet=off ./... >/dev/null 2>&1; go build ./..." % REPO)
+        b = sh("cd %s && go build ./... && go build -tags verif ./..." % wt)
         if b.returncode != 0:
             res["outcome"] = "DOES-NOT-BUILD: " + b.stdout[-300:]
             return res
         if m["suite"]:
-            t = sh("cd %s && go test -vet=off -count=1 ./... 2>&1 | grep -E '^(--- FAIL|FAIL|ok)'" % REPO)
+            t = sh("cd %s && go test -vet=off -count=1 ./... 2>&1 | grep -E '^(--- FAIL|FAIL|ok)'" % wt)
             fails = [l for l in t.stdout.splitlines() if l.startswith("--- FAIL") and "TestClientResetStream" not in l]
             res["suite"] = "pass" if not fails else "FAILS: " + ";".join(fails)[:300]
         t0 = time.time()
-        cmd = "cd %s && VERIF_NO_EVIDENCE=1 ./check %s --tier quick" % (ROOT, m["prop"])
+        cmd = "cd %s && VERIF_NO_EVIDENCE=1 VERIF_REPO=%s ./check %s --tier quick" % (ROOT, wt, m["prop"])
         if m.get("only"):
             cmd += " --only " + m["only"]
         c = sh(cmd, timeout=1500)
@@ -97,7 +97,7 @@ def run(m):
         res["outcome"] = "DETECTED" if c.returncode == 1 and "VIOLATION property=%s" % m["prop"] in c.stdout else "MISSED (exit %d)" % c.returncode
         res["tail"] = [l for l in c.stdout.splitlines() if "rapid] failed" in l or "VERIF-FAIL" in l or "panic:" in l or "WEDGE" in l][:2]
     finally:
-        sh("git -C %s checkout -- %s" % (REPO, m["file"]))
+        sh("git -C %s worktree remove --force %s" % (REPO, wt))
     return res
 
 
